@@ -40,6 +40,8 @@ type Options struct {
 	// TLS handshake) so that a server that stops reading backs the relay up
 	// after little data.
 	ServerRcvBuf int
+	// PreClosed closes the proxy's closing channel before Config.Proxy is called.
+	PreClosed bool
 }
 
 // Session is one h2.Config.Proxy call between a frame-level client (in-memory)
@@ -94,6 +96,9 @@ func Open(o Options) (*Session, error) {
 		StreamProcessorFactories: o.Factories,
 	}
 	u := &url.URL{Scheme: "https", Host: ln.Addr().String()}
+	if o.PreClosed {
+		s.CloseClosing()
+	}
 	go func() {
 		err := cfg.Proxy(s.Closing, s.Duplex.RelaySide(), u)
 		s.mu.Lock()
